@@ -72,6 +72,7 @@ fn main() {
             engf::routinator_main(&args[2..])
         ),
         Some("plan") => std::process::exit(driver::cmd_plan(&args[2..])),
+        Some("one") => std::process::exit(driver::cmd_one(&args[2..])),
         Some("replay") => std::process::exit(driver::cmd_replay(&args[2..])),
         _ => {
             eprintln!("usage: rtsim enga <seed> <n> [-v]");
